@@ -9,6 +9,7 @@ package main
 // surviving side sees the connection end within bounded virtual time.
 
 import (
+	"strings"
 	"bufio"
 	"bytes"
 	"fmt"
@@ -98,6 +99,12 @@ func runSysWS(x *X) {
 	o.timeouts = config.TimeoutConfig{Read: 5, Write: 5, Idle: 30, BackendRead: 5, Handler: 1 + c.Intn(5, "handler-timeout")}
 	// the handshake's Connection header is a token list (RFC 9110 7.6.1); browsers differ
 	connHdr := []string{"Upgrade", "upgrade", "keep-alive, Upgrade", "Upgrade, keep-alive", "Keep-Alive,upgrade"}[c.Intn(5, "conn-header")]
+	// the protocol token is case-insensitive, and WebSocket is not the only protocol a connection can be upgraded to
+	upProto := []string{"websocket", "websocket", "WebSocket", "WEBSOCKET", "mqtt", "x-tunnel/1.0"}[c.Intn(6, "upgrade-token")]
+	upEcho := upProto
+	if c.Intn(3, "echo-lower") == 0 {
+		upEcho = strings.ToLower(upProto)
+	}
 	// quiet periods inside the session: longer than every configured timeout
 	idles := c.Intn(3, "idles")
 	o.logging.RequestID.Enabled = c.Intn(2, "rid") == 1
@@ -120,7 +127,7 @@ func runSysWS(x *X) {
 		backend.mu.Lock()
 		backendHdr = req.Header.Clone()
 		backend.mu.Unlock()
-		io.WriteString(conn, "HTTP/1.1 101 Switching Protocols\r\nUpgrade: websocket\r\nConnection: Upgrade\r\nSec-WebSocket-Accept: s3pPLMBiTxaQ9kYGzzhZRbK+xOo=\r\n\r\n")
+		io.WriteString(conn, "HTTP/1.1 101 Switching Protocols\r\nUpgrade: "+upEcho+"\r\nConnection: Upgrade\r\nSec-WebSocket-Accept: s3pPLMBiTxaQ9kYGzzhZRbK+xOo=\r\n\r\n")
 		backend.mu.Lock()
 		backend.conn, backend.ready = conn, true
 		backend.mu.Unlock()
@@ -138,7 +145,7 @@ func runSysWS(x *X) {
 			upgradeErr = err.Error()
 			return
 		}
-		io.WriteString(conn, "GET /ws/chat?room=1 HTTP/1.1\r\nHost: helios.test\r\nUpgrade: websocket\r\nConnection: "+connHdr+"\r\nSec-WebSocket-Key: dGhlIHNhbXBsZSBub25jZQ==\r\nSec-WebSocket-Version: 13\r\nX-API-Key: k\r\nAccept-Encoding: gzip\r\n"+idLine+"\r\n")
+		io.WriteString(conn, "GET /ws/chat?room=1 HTTP/1.1\r\nHost: helios.test\r\nUpgrade: "+upProto+"\r\nConnection: "+connHdr+"\r\nSec-WebSocket-Key: dGhlIHNhbXBsZSBub25jZQ==\r\nSec-WebSocket-Version: 13\r\nX-API-Key: k\r\nAccept-Encoding: gzip\r\n"+idLine+"\r\n")
 		br := bufio.NewReader(conn)
 		resp, err := http.ReadResponse(br, &http.Request{Method: "GET"})
 		if err != nil {
